@@ -231,6 +231,25 @@ def evaluate_all(limit_orders=None):
                         elif not allok and o2 == "ok":
                             bad.append(("update_seeds-accepted-invalid",
                                         "/".join(names), r, tname))
+                        # a replication number that is refused for every
+                        # stream (ill-typed or negative): the whole-dict call
+                        # is refused and no stream is touched, not even
+                        # rewound to the start of its sequence
+                        if not valid_r and tname in ("none", "all"):
+                            st3 = fresh(names)
+                            tw3 = fresh(names)
+                            for n in names:
+                                draws(st3[n])
+                                draws(tw3[n])
+                            d3 = {n: st3[n] for n in order}
+                            o3 = outcome(lambda: upd2.update_seeds(d3, r))
+                            if o3 == "ok" or any(
+                                    draws(st3[n]) != draws(tw3[n])
+                                    or st3[n].seed() != tw3[n].seed()
+                                    for n in names):
+                                bad.append(("refused-update_seeds-touched-"
+                                            "the-streams", "/".join(names), r,
+                                            tname, o3))
                     if any(p != per_order[0] for p in per_order):
                         bad.append(("depends-on-listing-order",
                                     "table|%s|%r|%s|%s" % ("/".join(names), r,
